@@ -24,7 +24,10 @@ NUMERIC = (int, float, Decimal)
 def same(a, b):
     """the statement says 'an equal value': == (so True equals 1), NaN equal to NaN, containers element-wise"""
     if isinstance(a, NUMERIC) and isinstance(b, NUMERIC):
-        return bool(a == b) or (a != a and b != b)
+        try:
+            return bool(a == b) or (a != a and b != b)
+        except ArithmeticError:      # a signalling NaN raises on comparison
+            return type(a) is type(b) and str(a) == str(b)
     if type(a) is not type(b):
         return False
     if isinstance(a, (list, tuple)):
